@@ -363,7 +363,8 @@ impl<'a> RawFile<'a> {
                         DeserializationWarning::InternalFileLengthIsSmall(lf, actual_file_length),
                     ),
                 }
-                if lf <= 3 {
+                // The twelve 16-bit sizes occupy the first 6 words of the file.
+                if lf <= 5 {
                     return (
                         Err(DeserializationError::InternalFileLengthIsTooSmall(
                             lf,
